@@ -80,7 +80,10 @@ func genWriteCase(t *rapid.T) writeCase {
 	if rapid.IntRange(0, 9).Draw(t, "storedNil") > 0 {
 		c.stored = lib.GenMessage(t, "stored", c.proto, o)
 	}
-	if c.stored != nil && rapid.IntRange(0, 2).Draw(t, "mutant") > 0 {
+	if c.stored != nil && rapid.IntRange(0, 9).Draw(t, "sendBack") == 0 {
+		// a client that reads the value and sends it straight back (with masks): equal to what is stored
+		c.written = proto.Clone(c.stored)
+	} else if c.stored != nil && rapid.IntRange(0, 2).Draw(t, "mutant") > 0 {
 		c.written, _ = lib.Mutate(t, "written", c.stored, 3, o)
 	} else {
 		c.written = lib.GenMessage(t, "written", c.proto, o)
@@ -513,5 +516,99 @@ func TestWriteSequence(t *testing.T) {
 			nt = fmt.Sprintf("seq:%v:%d:%s", first.String(), n, txt(cur))
 		}
 		lib.Ev.Case(nt, func() any { return fmt.Sprintf("sequence of %d writes on one resource, first: %s", n, first.String()) })
+	})
+}
+
+
+// TestOptionMasksAreNotKept: the masks a caller passes as write options stay the caller's: they are not modified, and a
+// later write that passes one of them again gets exactly what that mask says, whatever earlier writes combined it with.
+func TestOptionMasksAreNotKept(t *testing.T) {
+	rapid.Check(t, func(t *rapid.T) {
+		first := genWriteCase(t)
+		md := first.proto.ProtoReflect().Descriptor()
+		if first.writable == nil {
+			first.writable, _ = drawValidMaskNoNilEmpty(t, "resWritable", md, first.stored, first.written)
+		}
+		// the caller's reusable mask objects (with spare capacity, as masks built by append or Union have)
+		pool := make([]*fieldmaskpb.FieldMask, 3)
+		snap := make([]*fieldmaskpb.FieldMask, 3)
+		for i := range pool {
+			m, _ := drawValidMaskNoNilEmpty(t, fmt.Sprintf("pool%d", i), md, first.stored, first.written)
+			pool[i] = lib.CloneMask(m)
+			snap[i] = &fieldmaskpb.FieldMask{Paths: append([]string(nil), m.Paths...)}
+		}
+		useColl := rapid.Bool().Draw(t, "collection")
+		ropts := []resource.Option{resource.WithWritableFields(lib.CloneMask(first.writable))}
+		var val *resource.Value
+		var col *resource.Collection
+		if useColl {
+			if first.stored != nil {
+				ropts = append(ropts, resource.WithInitialRecord("id", proto.Clone(first.stored)))
+			}
+			col = resource.NewCollection(ropts...)
+		} else {
+			if first.stored != nil {
+				ropts = append(ropts, resource.WithInitialValue(proto.Clone(first.stored)))
+			}
+			val = resource.NewValue(ropts...)
+		}
+		cur := first.stored
+		n := rapid.IntRange(2, 5).Draw(t, "writes")
+		multi := false
+		for i := 0; i < n; i++ {
+			c := writeCase{proto: first.proto, stored: cur, writable: first.writable, updateKind: "pooled", resetKind: "nil"}
+			c.written = lib.GenMessage(t, fmt.Sprintf("w%d", i), first.proto, lib.GenOpts{FieldProb: -1})
+			var opts []resource.WriteOption
+			var used []int
+			for k := 0; k < rapid.IntRange(0, 3).Draw(t, "nmore"); k++ {
+				j := rapid.IntRange(0, len(pool)-1).Draw(t, "more")
+				used = append(used, j)
+				opts = append(opts, resource.WithMoreWritableFields(pool[j])) // the caller's own object, not a copy
+			}
+			if len(used) >= 2 {
+				multi = true
+			}
+			if len(used) > 0 {
+				c.more = &fieldmaskpb.FieldMask{}
+				for _, j := range used {
+					c.more.Paths = append(c.more.Paths, snap[j].Paths...)
+				}
+			}
+			if rapid.Bool().Draw(t, "withUpdateMask") {
+				j := rapid.IntRange(0, len(pool)-1).Draw(t, "update")
+				opts = append(opts, resource.WithUpdateMask(pool[j]))
+				c.update = &fieldmaskpb.FieldMask{Paths: append([]string(nil), snap[j].Paths...)}
+			}
+			var ret, after proto.Message
+			var err error
+			if useColl {
+				if cur == nil {
+					opts = append(opts, resource.WithCreateIfAbsent())
+				}
+				ret, err = col.Update("id", proto.Clone(c.written), opts...)
+				if a, ok := col.Get("id"); ok {
+					after = a
+				}
+			} else {
+				ret, err = val.Set(proto.Clone(c.written), opts...)
+				after = val.Get()
+			}
+			for j := range pool {
+				if !proto.Equal(pool[j], snap[j]) {
+					t.Fatalf("write#%d modified a mask the caller passed as an option: %s is now %s\ncase: %v", i, lib.MaskString(snap[j]), lib.MaskString(pool[j]), c)
+				}
+			}
+			if e := checkOutcome(c, cur, after, ret, err, fmt.Sprintf("write#%d(collection=%v, pooled masks %v)", i, useColl, used)); e != nil {
+				t.Fatalf("%v\ncase: %v", e, c)
+			}
+			if after != nil {
+				cur = proto.Clone(after)
+			}
+		}
+		nt := ""
+		if multi {
+			nt = fmt.Sprintf("pooled:%v:%d:%s", first.String(), n, txt(cur))
+		}
+		lib.Ev.Case(nt, func() any { return fmt.Sprintf("%d writes passing the caller's own mask objects again and again, first: %s", n, first.String()) })
 	})
 }
